@@ -209,6 +209,7 @@ func Run(fns []func(), preempt func(point string) bool, choose Chooser) Result {
 		cur.resume <- struct{}{}
 		// wait until cur parks, ends or blocks
 		spins := 0
+		lockSeen := 0 // consecutive samples that found the task waiting for a lock
 		stepIx := len(res.Steps) - 1
 		for cur.st == running {
 			select {
@@ -218,10 +219,21 @@ func Run(fns []func(), preempt func(point string) bool, choose Chooser) Result {
 				spins++
 				r := waitReason(cur.gid)
 				if isLockWait(r) {
-					cur.st = blocked
-				} else if spins > 20000 {
-					res.Deadlock = true
-					return res
+					// a task blocked by a parked task stays blocked; a momentary wait (the runtime's
+					// or a library's own short critical sections under load) goes away: only four
+					// consecutive samples, at least 2 ms apart in total, count
+					lockSeen++
+					if lockSeen >= 4 {
+						cur.st = blocked
+					} else {
+						time.Sleep(700 * time.Microsecond)
+					}
+				} else {
+					lockSeen = 0
+					if spins > 20000 {
+						res.Deadlock = true
+						return res
+					}
 				}
 			}
 		}
